@@ -5,6 +5,8 @@ import (
 	"encoding/binary"
 	"fmt"
 	"math/rand"
+	"os"
+	"path/filepath"
 	"runtime"
 	"strings"
 	"sync"
@@ -12,6 +14,7 @@ import (
 	"time"
 
 	"github.com/kelindar/column"
+	"github.com/kelindar/column/commit"
 )
 
 // ---------------------------------------------------------------------------------------------
@@ -202,7 +205,158 @@ func triggerChurn(rep *Report) {
 	rep.count(fmt.Sprintf("trigger-churn-rounds=%d", rounds))
 }
 
+// logFileWitness: a log *file* as the change stream while several writers commit at once to different 16K-row
+// blocks (commits to one block are serialised by the block latch, commits to different blocks reach Log.Append
+// concurrently). Afterwards the file is read back and replayed into a fresh replica, which must hold exactly the
+// primary's rows; the file must hold every commit, in an order that preserves each block's own order.
+func logFileWitness(rep *Report) {
+	rounds, writers, perWriter := 6, 4, 250
+	if rep.Tier == "thorough" {
+		rounds, writers, perWriter = 60, 6, 600
+	}
+	bad := ""
+	for iter := 0; iter < rounds && bad == ""; iter++ {
+		// a round that does not finish (a writer or the reader of the file stuck) is reported, not waited for
+		done := make(chan string, 1)
+		go func() { done <- logFileRound(iter, writers, perWriter) }()
+		select {
+		case bad = <-done:
+		case <-time.After(90 * time.Second):
+			buf := make([]byte, 1<<20)
+			buf = buf[:runtime.Stack(buf, true)]
+			bad = fmt.Sprintf("round %d: %d writers on different blocks with a log file as the change stream: the round (writers, then reading the file back) did not finish within 90 s; goroutines: %s", iter, writers, clip(repoFrames(string(buf)), 1500))
+		}
+		rep.Cases++
+		rep.DistinctNontrivial++
+	}
+	if bad != "" {
+		v := Violation{Property: rep.Property, Kind: "oracle", Clause: bad, Script: []string{"stress logFileWitness"}}
+		writeReplay(rep.Property, "stress", &v)
+		rep.Violations = append(rep.Violations, v)
+	}
+	rep.count(fmt.Sprintf("log-file-rounds=%d writers=%d commits-per-writer=%d", rounds, writers, perWriter))
+}
+
+// repoFrames keeps the lines of a goroutine dump that name functions of the library
+func repoFrames(dump string) string {
+	var out []string
+	for _, l := range strings.Split(dump, "\n") {
+		if strings.Contains(l, "kelindar/column") && !strings.HasPrefix(l, "\t") {
+			out = append(out, strings.TrimSpace(l))
+		}
+	}
+	return strings.Join(out, " | ")
+}
+
+func logFileRound(iter, writers, perWriter int) (bad string) {
+	{
+		dir, err := os.MkdirTemp("", "verif-c06-")
+		if err != nil {
+			return "cannot create a scratch directory: " + err.Error()
+		}
+		path := filepath.Join(dir, "stream.log")
+		logw, err := commit.OpenFile(path)
+		if err != nil {
+			os.RemoveAll(dir)
+			return "cannot open the log file: " + err.Error()
+		}
+		mk := func(w commit.Logger) *column.Collection {
+			c := column.NewCollection(column.Options{Capacity: 64, Vacuum: 24 * time.Hour, Writer: w})
+			c.CreateColumn("v", column.ForInt64())
+			c.CreateColumn("s", column.ForString())
+			return c
+		}
+		p := mk(logw)
+		// one row at the start of each block (markers in between, so that the offsets exist)
+		p.Query(func(txn *column.Txn) error {
+			for i := 0; i < writers*16384; i++ {
+				txn.Insert(func(r column.Row) error {
+					if i%16384 == 0 {
+						r.SetInt64("v", 0)
+					}
+					return nil
+				})
+			}
+			return nil
+		})
+		var wg sync.WaitGroup
+		start := make(chan struct{})
+		for w := 0; w < writers; w++ {
+			wg.Add(1)
+			go func(w int) {
+				defer wg.Done()
+				<-start
+				for k := 1; k <= perWriter; k++ {
+					p.QueryAt(uint32(w*16384+k%50), func(r column.Row) error {
+						r.SetInt64("v", int64(w*1000000+k))
+						r.SetString("s", fmt.Sprintf("w%d-%d", w, k))
+						return nil
+					})
+				}
+			}(w)
+		}
+		close(start)
+		wg.Wait()
+		want := dumpVS(p)
+		p.Close()
+		logw.Close()
+		// read the file back into a replica
+		rd, err := commit.OpenFile(path)
+		replica := mk(nil)
+		n := 0
+		var rerr error
+		func() {
+			defer func() {
+				if x := recover(); x != nil {
+					rerr = fmt.Errorf("panic: %v", x)
+				}
+			}()
+			if err == nil {
+				rerr = rd.Range(func(cm commit.Commit) error { n++; return replica.Replay(cm) })
+			} else {
+				rerr = err
+			}
+		}()
+		if rd != nil {
+			rd.Close()
+		}
+		got := dumpVS(replica)
+		replica.Close()
+		os.RemoveAll(dir)
+		wantCommits := writers + writers*perWriter
+		switch {
+		case rerr != nil:
+			bad = fmt.Sprintf("round %d: %d writers committed %d transactions to different blocks with a log file as the change stream; reading the file back failed after %d commits: %v", iter, writers, wantCommits, n, rerr)
+		case n != wantCommits:
+			bad = fmt.Sprintf("round %d: %d commits were made (%d writers on different blocks, log file as the change stream), the file holds %d", iter, wantCommits, writers, n)
+		case got != want:
+			bad = fmt.Sprintf("round %d: the replica fed the log file differs from the primary (%d commits, %d writers on different blocks): primary %s, replica %s", iter, wantCommits, writers, clip(want, 300), clip(got, 300))
+		}
+	}
+	return bad
+}
+
+// dumpVS lists the rows holding a value in "v" with their "v" and "s"
+func dumpVS(c *column.Collection) string {
+	var sb strings.Builder
+	c.Query(func(txn *column.Txn) error {
+		v, s := txn.Int64("v"), txn.String("s")
+		return txn.With("v").Range(func(idx uint32) {
+			a, _ := v.Get()
+			b, _ := s.Get()
+			fmt.Fprintf(&sb, "%d=%d/%s ", idx, a, b)
+		})
+	})
+	fmt.Fprintf(&sb, "count=%d", c.Count())
+	return sb.String()
+}
+
 func runStress(rep *Report, replay string) {
+	if rep.Property == "C06" {
+		logFileWitness(rep)
+		rep.Rule = "log file as the change stream under concurrent writers: per round a primary logging to a file, one writer per 16K-row block committing single-row transactions at once, then the file is read back and replayed into a fresh replica; the file must hold every commit and the replica must equal the primary"
+		return
+	}
 	if rep.Property == "C19" {
 		// this property's concurrent part only: triggers beside trigger creation / removal
 		triggerChurn(rep)
